@@ -7,6 +7,8 @@ ID="$1"
 cd /repo
 for c in $(git cherry main "ws-$ID" | awk '$1=="+"{print $2}'); do
   if [ "$(git rev-list --parents -n1 $c | wc -w)" -gt 2 ]; then continue; fi
+  # already brought over earlier (cherry-picks get new ids; compare by subject line)
+  if git log --format=%s main | grep -Fxq "$(git log --format=%s -n1 $c)"; then continue; fi
   echo "cherry-pick $(git log --oneline -n1 $c)"
   if ! git cherry-pick "$c" >/dev/null 2>&1; then
     if [ "$(git status --short | grep '^U' | awk '{print $2}')" = "src/verif_hooks.rs" ]; then
